@@ -17,7 +17,7 @@ scalar JSON
 type Human implements Node { id: ID! name(upper: Boolean): String! friends: [Human!]! best: Human age: Int tag(meta: JSON): String }
 input TagIn { label: String weight: Int }
 input HumanIn { name: String tags: [TagIn!] }
-type Query { node(id: ID!): Node getHumans: [Human!]! me: Human findHumans(filter: [HumanIn!], grid: [[Int]], first: Int): [Human!]! maybe: [Human] nobody: [Human] }
+type Query { node(id: ID!): Node getHumans: [Human!]! me: Human findHumans(filter: [HumanIn!], grid: [[Int]], first: Int): [Human!]! maybe: [Human] nobody: [Human] must: Human! }
 type Robot implements Node { id: ID! name: String! }
 type SavePayload { human: Human query: Query }
 type Mutation { saveHuman(name: String!): Human! saveBoth(name: String!): SavePayload }
@@ -78,6 +78,7 @@ func vReadmeWorld(k int) *vWorld {
 	w.roots["Query.findHumans"] = []vRef{{"Human", "h1"}}
 	w.roots["Query.maybe"] = []interface{}{vRef{"Human", "h1"}, nil, vRef{"Human", "h2"}}
 	w.roots["Query.nobody"] = []interface{}{nil, nil}
+	w.roots["Query.must"] = nil
 	w.roots["Query.getAnimals"] = []vRef{{"Animal", "a1"}}
 	w.roots["Mutation.saveHuman"] = vRef{"Human", "h2"}
 	w.roots["Mutation.savePhone"] = vRef{"Human", "h1"}
@@ -95,6 +96,7 @@ type vOp struct {
 	known13 string // recorded C13 finding about the data of this operation ("" = none)
 	sparse  bool   // by construction nothing reaches the dependent steps (lists of nulls): no coverage obligations
 	opName string
+	fails  bool // the services' data makes this operation fail (a null for a non-null field): compared with the plain planner's answer
 }
 
 func vReadmeOps() []vOp {
